@@ -40,8 +40,10 @@ def main():
     try:
         os.makedirs(os.path.join(W, "tests"), exist_ok=True)
         shutil.copy(demo, os.path.join(W, "tests", "demo.rs"))
-        rc, out = sh(["cargo", "test", "--offline", "--test", "demo"], cwd=W, env=env)
-        ran.append(f"unchanged tree: cargo test --offline --test demo -> exit {rc}")
+        feat = os.environ.get("DEMO_FEATURES")
+        demo_cmd = ["cargo", "test", "--offline", "--test", "demo"] + (["--features", feat] if feat else [])
+        rc, out = sh(demo_cmd, cwd=W, env=env)
+        ran.append(f"unchanged tree: {' '.join(demo_cmd)} -> exit {rc}")
         if rc != 0:
             print("REJECT: demo fails on the unchanged tree\n", out[-1500:])
             return 1
@@ -68,9 +70,9 @@ def main():
                 if repro:
                     print("REJECT: existing suite fails with the patch:", summ)
                     return 1
-        rc, out = sh(["cargo", "test", "--offline", "--test", "demo"], cwd=W, env=env)
+        rc, out = sh(demo_cmd, cwd=W, env=env)
         res = [l for l in out.splitlines() if l.startswith("test result")]
-        ran.append(f"patched tree: cargo test --offline --test demo -> exit {rc} ({res[0] if res else ''})")
+        ran.append(f"patched tree: {' '.join(demo_cmd)} -> exit {rc} ({res[0] if res else ''})")
         if rc == 0:
             print("REJECT: demo passes with the patch applied")
             return 1
